@@ -47,9 +47,9 @@ CLAIMS = {
     'C19': ("Decided (Kani, every value of every fixed-width type): == symmetric/reflexive, partial_cmp total, antisymmetric and consistent with ==, equal values feed equal hasher input, for all 21 kind pairs (non-NaN); integer equality/order agree with mathematical value for all pairs with a 32-bit side; casts are value-preserving or refused; VarInt/ZigZag codec round-trips.",
             "Outside: Blob ordering (bounded unit not built), ORDER BY/DISTINCT operators; comparisons between two 64-bit integers go through f64 (3 recorded known findings).",
             "complete Kani harnesses (loop-free, full-domain) on the real crate", "4 C19"),
-    'C20': ("Decided (Kani): status codes are a bijection; every fixed-size request/response round-trips for every field value; the frame reader rejects every length above 16 MiB before allocating; bounded: arbitrary byte strings of length <= 10 never panic the decoders, short ASCII strings round-trip.",
-            "Outside: Rows result sets (Vec<Vec<String>>), the untrusted column/row counts passed to Vec::with_capacity, sockets, server rendering.",
-            "complete + bounded Kani harnesses on the real crate", "4 C20"),
+    'C20': ("Decided (Kani, complete): status codes are a bijection; every command/status byte decodes to exactly its unit request/response or an error, a wrong version byte is always an error; Analyze, RowsAffected and VacuumComplete frames decode to exactly the little-endian fields of every payload and encode to exactly that layout for every field value (so they round-trip); every byte string of length 0..3 is answered with Ok/Err without panic; the frame reader rejects every announced length above 16 MiB before reading or allocating.",
+            "Outside: string-carrying frames and Rows result sets (String / Vec<Vec<String>> decoding is beyond the model checker's capacity on this code, DESIGN M16), the untrusted column/row counts passed to Vec::with_capacity, sockets, server rendering.",
+            "complete Kani harnesses on the real crate", "4 C20"),
 }
 
 NA = {
